@@ -68,6 +68,31 @@ func init() {
 
 type contextualizerData struct {
 	Payload any `json:"payload"`
+	// The response body as received and its content type. Set only, if the types of the values in the
+	// payload decoded from it (e.g. integers in yaml) get lost, when the payload is stored as json.
+	Body        []byte `json:"body,omitempty"`
+	ContentType string `json:"content_type,omitempty"`
+}
+
+// restorePayload decodes the payload again from the response body, if the latter has been stored.
+func (cd *contextualizerData) restorePayload() error {
+	if len(cd.Body) == 0 {
+		return nil
+	}
+
+	decoder, err := contenttype.NewDecoder(cd.ContentType)
+	if err != nil {
+		return err
+	}
+
+	payload, err := decoder.Decode(cd.Body)
+	if err != nil {
+		return err
+	}
+
+	cd.Payload = payload
+
+	return nil
 }
 
 type genericContextualizer struct {
@@ -146,7 +171,7 @@ func (h *genericContextualizer) Execute(ctx heimdall.Context, sub *subject.Subje
 		if entry, err := cch.Get(ctx.AppContext(), cacheKey); err == nil {
 			var cd contextualizerData
 
-			if err = json.Unmarshal(entry, &cd); err == nil {
+			if err = json.Unmarshal(entry, &cd); err == nil && cd.restorePayload() == nil {
 				logger.Debug().Msg("Reusing contextualizer response from cache")
 
 				response = &cd
@@ -247,12 +272,14 @@ func (h *genericContextualizer) callEndpoint(
 
 	defer resp.Body.Close()
 
-	data, err := h.readResponse(ctx, resp)
+	response := &contextualizerData{}
+
+	response.Payload, err = h.readResponse(ctx, resp, response)
 	if err != nil && !errors.Is(err, errNoContent) {
 		return nil, err
 	}
 
-	return &contextualizerData{Payload: data}, nil
+	return response, nil
 }
 
 func (h *genericContextualizer) createRequest(
@@ -308,7 +335,9 @@ func (h *genericContextualizer) createRequest(
 	return req, nil
 }
 
-func (h *genericContextualizer) readResponse(ctx heimdall.Context, resp *http.Response) (any, error) {
+func (h *genericContextualizer) readResponse(
+	ctx heimdall.Context, resp *http.Response, response *contextualizerData,
+) (any, error) {
 	logger := zerolog.Ctx(ctx.AppContext())
 
 	if !(resp.StatusCode >= http.StatusOK && resp.StatusCode < http.StatusMultipleChoices) {
@@ -347,6 +376,14 @@ func (h *genericContextualizer) readResponse(ctx heimdall.Context, resp *http.Re
 		return nil, errorchain.NewWithMessage(heimdall.ErrInternal, "failed to unmarshal response").
 			WithErrorContext(h).
 			CausedBy(err)
+	}
+
+	if _, ok := decoder.(contenttype.YAMLDecoder); ok {
+		// yaml distinguishes between integers and floating point numbers, json, which is used to
+		// cache the payload, does not. An expression of a subsequent pipeline step, which holds for the
+		// payload as received, could otherwise fail (or hold) for the same payload taken from the cache.
+		response.Body = rawData
+		response.ContentType = contentType
 	}
 
 	return result, nil
